@@ -192,7 +192,7 @@ func RowsMetadata(t *rapid.T, v primitive.ProtocolVersion, depth int, label stri
 		m.PagingState = Blob(t, label+"/pagingState", 2000)
 	}
 	if HasResultMetadataId(v) && rapid.Bool().Draw(t, label+"/hasNewId") {
-		m.NewResultMetadataId = NonEmptyBlob(t, label+"/newId", 64)
+		m.NewResultMetadataId = ShortBytesId(t, label+"/newId")
 	}
 	if IsDse(v) && rapid.Bool().Draw(t, label+"/cp") {
 		m.ContinuousPageNumber = rapid.SampledFrom([]int32{1, 2, 1000, 1<<31 - 1}).Draw(t, label+"/pageNo")
@@ -353,9 +353,9 @@ var Kinds = []Kind{
 		return m
 	}},
 	{Name: "EXECUTE", OpCode: primitive.OpCodeExecute, Valid: always, Draw: func(t *rapid.T, v primitive.ProtocolVersion, o Opts) message.Message {
-		m := &message.Execute{QueryId: NonEmptyBlob(t, "queryId", 64), Options: QueryOptions(t, v, "opts")}
+		m := &message.Execute{QueryId: ShortBytesId(t, "queryId"), Options: QueryOptions(t, v, "opts")}
 		if HasResultMetadataId(v) {
-			m.ResultMetadataId = NonEmptyBlob(t, "resultMetadataId", 64)
+			m.ResultMetadataId = ShortBytesId(t, "resultMetadataId")
 		}
 		return m
 	}},
@@ -372,7 +372,7 @@ var Kinds = []Kind{
 		for i := 0; i < n; i++ {
 			c := &message.BatchChild{}
 			if rapid.Bool().Draw(t, fmt.Sprintf("c%d/prepared", i)) {
-				c.Id = NonEmptyBlob(t, fmt.Sprintf("c%d/id", i), 64)
+				c.Id = ShortBytesId(t, fmt.Sprintf("c%d/id", i))
 			} else {
 				q := LongStr(t, fmt.Sprintf("c%d/query", i), 70000)
 				if q == "" {
@@ -459,7 +459,7 @@ var Kinds = []Kind{
 		return &message.FunctionFailure{ErrorMessage: Str(t, "msg"), Keyspace: Str(t, "ks"), Function: Str(t, "function"), Arguments: StrList(t, "args", 4)}
 	}},
 	{Name: "ERROR/Unprepared", Response: true, OpCode: primitive.OpCodeError, Valid: always, Draw: func(t *rapid.T, v primitive.ProtocolVersion, o Opts) message.Message {
-		return &message.Unprepared{ErrorMessage: Str(t, "msg"), Id: NonEmptyBlob(t, "id", 64)}
+		return &message.Unprepared{ErrorMessage: Str(t, "msg"), Id: ShortBytesId(t, "id")}
 	}},
 	{Name: "ERROR/AlreadyExists", Response: true, OpCode: primitive.OpCodeError, Valid: always, Draw: func(t *rapid.T, v primitive.ProtocolVersion, o Opts) message.Message {
 		return &message.AlreadyExists{ErrorMessage: Str(t, "msg"), Keyspace: Str(t, "ks"), Table: Str(t, "table")}
@@ -488,9 +488,9 @@ var Kinds = []Kind{
 		return &message.SetKeyspaceResult{Keyspace: NonEmptyStr(t, "ks")}
 	}},
 	{Name: "RESULT/Prepared", Response: true, OpCode: primitive.OpCodeResult, Valid: always, Draw: func(t *rapid.T, v primitive.ProtocolVersion, o Opts) message.Message {
-		m := &message.PreparedResult{PreparedQueryId: NonEmptyBlob(t, "id", 64)}
+		m := &message.PreparedResult{PreparedQueryId: ShortBytesId(t, "id")}
 		if HasResultMetadataId(v) {
-			m.ResultMetadataId = NonEmptyBlob(t, "resultMetadataId", 64)
+			m.ResultMetadataId = ShortBytesId(t, "resultMetadataId")
 		}
 		vm := &message.VariablesMetadata{}
 		n := rapid.IntRange(0, 4).Draw(t, "nvars")
